@@ -1421,3 +1421,7 @@ SUBCHECKS = [
     Sub('sequences-random', check, strategy=strat_sequences, classify=classify, nontrivial=nontrivial,
         n=(8000, 200000), shards=(16, 32)),
 ]
+
+# the same generated cases, several at a time, checked by threads that run at the same time (core.run_overlapping): per-call state
+# kept in a place two calls share shows only there
+SUBCHECKS.append(__import__('harness.core', fromlist=['overlapped']).overlapped(next(s for s in SUBCHECKS if s.name == 'sequences-random'), k=4, n=(80, 3000)))
